@@ -195,6 +195,33 @@ def ann_tags(ann):
     return ()
 
 
+def _has_nested_unpack(t):
+    return t[0] in ("t", "l") and any(
+        x[0] in ("t", "l") or (x[0] == "star" and x[1][0] in ("t", "l")) for x in t[1])
+
+
+def _twin_unpack(t, rhs, ind, twin, ctx):
+    ctx["tw"] = ctx.get("tw", 0)
+    parts, todo = [], []
+    for x in t[1]:
+        ctx["tw"] += 1
+        name = f"tw{ctx['tw']}_"
+        if x[0] == "star":
+            parts.append("*" + name)
+            todo.append((x[1], name))
+        else:
+            parts.append(name)
+            todo.append((x, name))
+    out = [f"{ind}[" + ", ".join(parts) + f"] = {rhs}"]
+    for x, name in todo:
+        if x[0] in ("t", "l"):
+            out += _twin_unpack(x, name, ind, twin, ctx)
+        else:
+            out.append(f"{ind}{r_target(x, twin)} = {name}")
+            out += _binds(target_names(x), ind)
+    return out
+
+
 def _binds(names, ind, tags=None):
     out = []
     for n in names:
@@ -225,6 +252,10 @@ def r_stmt(s, ind, twin, ctx):
             label = f"{t[1]}.{t[2]}" if t[0] == "attr" else None
             if label:
                 rhs = f"H.bind({label!r}, {rhs})"
+        if twin and len(targets) == 1 and _has_nested_unpack(targets[0]):
+            # Python unpacks one level at a time: the entries before a nested target are stored
+            # (bound) before the nested value is unpacked, even if that then fails
+            return _twin_unpack(targets[0], rhs, ind, twin, ctx)
         line = ind + " = ".join(r_target(t, twin) for t in targets) + " = " + rhs
         out = [line]
         if twin:
@@ -873,6 +904,13 @@ def functions(flags=None, want_gen=None):
                 return pre + [("assign", [t], e)]
             if arity == -2:
                 e = ("tuple", [int_expr(bound, 1), ("tuple", [int_expr(bound, 1), int_expr(bound, 1)])])
+                if draw(st.integers(0, 2)) == 0:
+                    # the inner sequence has the wrong length: the outer entries that come first are
+                    # bound all the same, and the statement fails with the inner unpacking
+                    inner = [int_expr(bound, 1) for _ in range(draw(st.sampled_from([1, 3])))]
+                    e = ("tuple", [int_expr(bound, 1), ("tuple", inner)])
+                    mark(bound, t)
+                    return pre + [("try", [("assign", [t], e)], [("(ValueError, TypeError)", None, [("pass",)])], [], [])]
             elif arity == -3:
                 n = draw(st.integers(1, 4))
                 e = unpack_source(n, bound)
